@@ -66,6 +66,10 @@ func PanicSites(fn *ssa.Function) []PanicSite {
 				s := PanicSite{In: in, Kind: "slice", Expr: facts.Term(x.X) + "[" + termOrEmpty(x.Low) + ":" + termOrEmpty(x.High) + "]"}
 				s.Proven, s.Why = prover().SliceOK(x, in)
 				out = append(out, s)
+			case *ssa.MakeSlice:
+				s := PanicSite{In: in, Kind: "make-size", Expr: "make(" + termOrEmpty(x.Len) + "," + termOrEmpty(x.Cap) + ")"}
+				s.Proven, s.Why = makeSizeOK(x, prover())
+				out = append(out, s)
 			case *ssa.TypeAssert:
 				if !x.CommaOk {
 					out = append(out, PanicSite{In: in, Kind: "type-assert", Expr: facts.Term(x.X) + ".(" + x.AssertedType.String() + ")"})
